@@ -155,11 +155,8 @@ def run(ctx):
                     continue
                 cli_runs += 1
                 t0 = time.time()
-                try:
-                    p = subprocess.run([binp, "lint"] + mode + [os.path.join(d, base)], stdout=subprocess.PIPE, stderr=subprocess.PIPE, timeout=8)
-                    rc, err = p.returncode, p.stderr.decode("utf-8", "replace")
-                except subprocess.TimeoutExpired:
-                    rc, err = "timeout", ""
+                rc, _o, err = lib.run_cli([binp, "lint"] + mode + [os.path.join(d, base)], cpu_s=6.0)
+                err = err.decode("utf-8", "replace")
                 st = "ok" if rc == 0 else ("timeout" if rc == "timeout" else ("panic" if "panicked" in err else "rc%s" % rc))
                 hist["cli:" + st] = hist.get("cli:" + st, 0) + 1
                 if st == "timeout":
@@ -185,14 +182,13 @@ def run(ctx):
     for start in ("a.s", "dot.s", "up.s", "lnk.s"):
         for mode in ([], ["--json"], ["--all-files", "--compact"]):
             cli_runs += 1
-            try:
-                p = subprocess.run([rva, "lint"] + mode + [os.path.join(d, start)], stdout=subprocess.PIPE, stderr=subprocess.PIPE, timeout=10)
-                if p.returncode != 0:
-                    failing.append(dict(files="include cycle on disk starting at %s" % start, mode=mode, why="rva exits with %s: %s" % (p.returncode, p.stderr.decode()[-200:]), cls="rc"))
-            except subprocess.TimeoutExpired:
+            rc_, _o, e_ = lib.run_cli([rva, "lint"] + mode + [os.path.join(d, start)], cpu_s=6.0)
+            if rc_ == "timeout":
                 failing.append(dict(files="include cycle on disk starting at %s (see tools/props/C06.py for the files)" % start, mode=mode,
                                     why="self/cyclic inclusion does not terminate", cls="hang:include"))
                 break
+            if rc_ != 0:
+                failing.append(dict(files="include cycle on disk starting at %s" % start, mode=mode, why="rva exits with %s: %s" % (rc_, e_.decode("utf-8", "replace")[-200:]), cls="rc"))
     shutil.rmtree(work, ignore_errors=True)
     # ---- verdict --------------------------------------------------------------------------------------
     tags = {}
